@@ -119,6 +119,9 @@ func run(t *tape.Tape, cfg sim.Config, listen bool) (res sim.Result) {
 	if cfg.Class == "exit-then-wasi" {
 		return runExitThenWASI(t, cfg)
 	}
+	if cfg.Class == "overflow" && !listen && t.Chance(1, 6) {
+		return runCrossTail(t, cfg)
+	}
 	if cfg.Class == "deep" {
 		return runDeep(r, &res)
 	}
